@@ -17,7 +17,7 @@ import ast
 from .. import nodewalk, paths, tables
 from ..model import AnalysisError, Project, self_attr, walk_no_nested
 from ..report import Result
-from .common import site, src
+from .common import site, src, range_guard_ok
 
 PROP = 'C15'
 LEVEL = 'other'
@@ -278,6 +278,10 @@ def range_checked(w, sel, edges, evs, ci_):
             t = ast.unparse(e.d['node']).replace(' ', '')
             if f'>=len(self.{edges})' in t and e.polarity is False:
                 return True
+            # a rejection test in any spelling (the whole if-test is looked up: the explorer splits and/or into single comparisons)
+            whole = enclosing_test(w, e)
+            if whole is not None and f'len(self.{edges})' in ast.unparse(whole).replace(' ', '') and range_guard_ok(whole, edges, accept=False):
+                return True
         if (e.kind == 'pcall' and e.name in ('reserve_put', 'reserve_get', 'can_put')) or e.kind == 'spawn':
             return False
     return False
@@ -285,7 +289,32 @@ def range_checked(w, sel, edges, evs, ci_):
 
 def is_range_test(t, edges):
     s_ = ast.unparse(t).replace(' ', '')
-    return ('0<=' in s_ and f'<len(self.{edges})' in s_)
+    if '0<=' in s_ and f'<len(self.{edges})' in s_:
+        return True
+    return f'len(self.{edges})' in s_ and range_guard_ok(strip_type_test(t), edges, accept=True)
+
+
+def strip_type_test(t):
+    """`type(i) == int and 0 <= i < n` -> the range part (the type conjunct is not about the range)"""
+    if isinstance(t, ast.BoolOp) and isinstance(t.op, ast.And):
+        keep = [v for v in t.values if 'type(' not in ast.unparse(v) and 'isinstance(' not in ast.unparse(v)]
+        if len(keep) == 1:
+            return keep[0]
+        if keep:
+            return ast.BoolOp(op=ast.And(), values=keep)
+    return t
+
+
+def enclosing_test(w, e):
+    """the complete test of the if-statement that the comparison of this cond event belongs to"""
+    node = e.d.get('node')
+    fi = e.fi
+    if node is None or fi is None:
+        return None
+    for n in ast.walk(fi.node):
+        if isinstance(n, (ast.If, ast.While, ast.Assert)) and any(x is node for x in ast.walk(n.test)):
+            return n.test
+    return None
 
 
 def short(v):
